@@ -39,7 +39,8 @@ fn gen_spec(rng: &mut Rng, id: u64, nclasses: usize) -> Spec {
     let mut obs = vec![];
     for _ in 0..(if rng.chance(0.15) { 0 } else { 1 + rng.usize(3) }) {
         let oa = if rng.chance(0.7) { Some(rng.usize(90) as f32 / 10.0) } else { None };
-        let f = if rng.chance(0.6) { Some((0..1 + rng.usize(2)).map(|_| rng.usize(10) as f32).collect()) } else { None };
+        // (a fifth of the features are long: 9..17 components, i.e. more SIMD blocks than the short ones - distances are defined on the common prefix)
+        let f = if rng.chance(0.6) { Some((0..if rng.chance(0.2) { 9 + rng.usize(9) } else { 1 + rng.usize(2) }).map(|_| rng.usize(10) as f32).collect()) } else { None };
         obs.push((rng.usize(nclasses.max(1)) as u64, oa, f));
     }
     Spec { id, compat: 1 + rng.usize(2) as u8, counter: rng.range(0, 3), obs }
@@ -48,7 +49,7 @@ fn gen_spec(rng: &mut Rng, id: u64, nclasses: usize) -> Spec {
 type Row = (u64, u64, Option<u32>, Option<u32>);
 
 /// reference enumeration: what the query must return for candidate `c` over the stored tracks
-fn reference(cands: &[Snap], stored: &[Snap], cls: u64, only_baked: bool) -> (Vec<Row>, Vec<(u64, u64, u64)>) {
+fn reference(cands: &[Snap], stored: &[Snap], cls: u64, only_baked: bool, post_min: bool) -> (Vec<Row>, Vec<(u64, u64, u64)>) {
     let mut ok = vec![];
     let mut err = vec![];
     for c in cands {
@@ -64,6 +65,7 @@ fn reference(cands: &[Snap], stored: &[Snap], cls: u64, only_baked: bool) -> (Ve
             }
             match (c.obs.get(&cls), t.obs.get(&cls)) {
                 (Some(l), Some(r)) => {
+                    let first = ok.len();
                     for lo in l {
                         for ro in r {
                             let am = match (lo.0, ro.0) {
@@ -78,6 +80,15 @@ fn reference(cands: &[Snap], stored: &[Snap], cls: u64, only_baked: bool) -> (Ve
                                 continue; // the metric yields no value for clearly different observations
                             }
                             ok.push((c.id, t.id, am.map(|v| v.to_bits()), fd.map(|v| v.to_bits())));
+                        }
+                    }
+                    // the metric's own post-processing sees the results of ONE (candidate, stored track) pair at a time
+                    if post_min {
+                        let best = ok[first..].iter().filter_map(|r| r.3.map(f32::from_bits)).fold(None, |m: Option<f32>, d| Some(m.map_or(d, |x| x.min(d))));
+                        if let Some(b) = best {
+                            let keep: Vec<Row> = ok[first..].iter().filter(|r| r.3 == Some(b.to_bits())).cloned().collect();
+                            ok.truncate(first);
+                            ok.extend(keep);
                         }
                     }
                 }
@@ -104,6 +115,8 @@ struct Scenario {
     /// 0: ok stream then error stream, 1: error stream first, 2: ok stream dropped unread, 3: error stream dropped unread
     consume: u8,
     merges: Vec<(u64, u64)>,
+    /// the metric post-processes each list it is handed as a list (keeps the closest results only)
+    post_min: bool,
 }
 
 fn gen_scenario(rng: &mut Rng, small: bool) -> Scenario {
@@ -135,16 +148,17 @@ fn gen_scenario(rng: &mut Rng, small: bool) -> Scenario {
             }
         }
     }
-    Scenario { merges, shards, stored, foreign, owned_ids, owned, cls: if rng.chance(0.15) { nclasses as u64 } else { rng.usize(nclasses) as u64 }, only_baked: rng.chance(0.4), use_iter: rng.chance(0.5), abandon_after: if rng.chance(0.15) { Some(rng.usize(4)) } else { None }, consume: *rng.pick(&[0u8, 0, 0, 1, 1, 2, 3]) }
+    Scenario { merges, shards, stored, foreign, owned_ids, owned, cls: if rng.chance(0.15) { nclasses as u64 } else { rng.usize(nclasses) as u64 }, only_baked: rng.chance(0.4), use_iter: rng.chance(0.5), abandon_after: if rng.chance(0.15) { Some(rng.usize(4)) } else { None }, consume: *rng.pick(&[0u8, 0, 0, 1, 1, 2, 3]), post_min: rng.chance(0.3) }
 }
 
 fn store_snaps(st: &Store, shards: usize) -> Vec<Snap> {
     let mut v = vec![];
-    for k in 0..shards {
-        for (_, t) in st.get_store(k).iter() {
+    let _ = shards;
+    vh::all_shards!(st, g => {
+        for (_, t) in g.iter() {
             v.push(snap(t));
         }
-    }
+    });
     v.sort_by_key(|s| s.id);
     v
 }
@@ -159,6 +173,7 @@ struct RunOut {
 }
 
 fn run_query(env: &Env, sc: &Scenario, allow_abandon: bool) -> (RunOut, Vec<Snap>, Vec<Snap>) {
+    env.plan.post_min.store(sc.post_min, std::sync::atomic::Ordering::SeqCst);
     let mut st: Store = TrackStoreBuilder::new(sc.shards).default_attributes(WAttrs::new(1, 8, env.plan.clone())).metric(WMetric { state: 0, plan: env.plan.clone() }).notifier(env.notif.clone()).build();
     for s in &sc.stored {
         st.add_track(lib_track(env, s)).unwrap();
@@ -227,7 +242,7 @@ fn run_query(env: &Env, sc: &Scenario, allow_abandon: bool) -> (RunOut, Vec<Snap
 
 fn judge(rep: &mut Report, idx: u64, sc: &Scenario, out: &RunOut, before: &[Snap], cands: &[Snap], sched: &str, ctx: &Value) -> bool {
     let kind = if sc.owned { "owned" } else { "foreign" };
-    let (rok, rerr) = reference(cands, before, sc.cls, sc.only_baked);
+    let (rok, rerr) = reference(cands, before, sc.cls, sc.only_baked, sc.post_min);
     let mut good = true;
     if out.ok.iter().any(|r| r.0 == r.1) {
         rep.violation(&format!("C10/{}/self-pair", kind), idx, json!({"ctx": ctx, "schedule": sched}));
@@ -253,7 +268,7 @@ fn judge(rep: &mut Report, idx: u64, sc: &Scenario, out: &RunOut, before: &[Snap
 fn main() {
     let cli = Cli::parse();
     let mut rep = Report::new("C10", &cli);
-    rep.note("rule", json!("scenario = store of 0..12 tracks (0..3 observations in 0..2 classes, mixed compatibility classes and statuses) on 1..4 shards + candidate batch of 1..4 tracks (foreign, some with ids that also exist in the store; or owned ids incl. ids that are not stored), feature class possibly absent, both only_baked settings, results read through all() or into_iter(), ok stream first / error stream first / one of the two dropped unread; in 15% of the scenarios the same query is first issued and abandoned (result objects dropped after 0..3 elements). Reference: enumeration over the pre-query store contents (all stored tracks != candidate, compatible, Ready when only_baked, one element per observation pair with a metric value; (from,to,class) errors when a class is missing). Schedules: small scenarios (<= 3 shards x <= 2 candidates) are driven through EVERY order of worker commands (and for owned queries every position of the caller's step) by gate scripts at the guarded schedule points; larger ones run under seeded random delay plans. Non-trivial: reference multiset has >= 2 results from >= 2 shards; distinct by scenario hash."));
+    rep.note("rule", json!("scenario = store of 0..12 tracks (0..3 observations in 0..2 classes, features of 1..2 or 9..17 components, mixed compatibility classes and statuses; in 30% of the scenarios the metric post-processes each (candidate, stored track) result list as a list, keeping only its closest results) on 1..4 shards + candidate batch of 1..4 tracks (foreign, some with ids that also exist in the store; or owned ids incl. ids that are not stored), feature class possibly absent, both only_baked settings, results read through all() or into_iter(), ok stream first / error stream first / one of the two dropped unread; in 15% of the scenarios the same query is first issued and abandoned (result objects dropped after 0..3 elements). Reference: enumeration over the pre-query store contents (all stored tracks != candidate, compatible, Ready when only_baked, one element per observation pair with a metric value; (from,to,class) errors when a class is missing). Schedules: small scenarios (<= 3 shards x <= 2 candidates) are driven through EVERY order of worker commands (and for owned queries every position of the caller's step) by gate scripts at the guarded schedule points; larger ones run under seeded random delay plans. Non-trivial: reference multiset has >= 2 results from >= 2 shards; distinct by scenario hash."));
     rep.note("assumptions", json!(["commands of one worker are executed in submission order (crossbeam FIFO)", "a gate script that cannot make progress for 10 s is abandoned and the run counted as stalled (never a violation)"]));
     let env = Env { plan: FaultPlan::new(), notif: CountingNotifier::default() };
     let ctl = Controller::install();
@@ -263,7 +278,7 @@ fn main() {
         let small = idx % 4 == 0 || cli.small;
         let sc = gen_scenario(&mut rng, small);
         rep.eval();
-        let ctx = json!({"shards": sc.shards, "owned": sc.owned, "class": sc.cls, "only_baked": sc.only_baked, "iterator": sc.use_iter,
+        let ctx = json!({"shards": sc.shards, "owned": sc.owned, "class": sc.cls, "only_baked": sc.only_baked, "iterator": sc.use_iter, "list_wise_postprocessing": sc.post_min,
             "stored": sc.stored.iter().map(|s| format!("{:?}", s)).collect::<Vec<_>>(), "merges_with_history[dest,src]": sc.merges,
             "candidates": if sc.owned { json!(sc.owned_ids) } else { json!(sc.foreign.iter().map(|s| format!("{:?}", s)).collect::<Vec<_>>()) }});
         // 1. plain run (recorded)
@@ -339,7 +354,7 @@ fn main() {
                 }
             }
         }
-        let (rok, rerr) = reference(&cands, &before, sc.cls, sc.only_baked);
+        let (rok, rerr) = reference(&cands, &before, sc.cls, sc.only_baked, sc.post_min);
         if !rerr.is_empty() {
             rep.count("scenarios_with_class_missing_errors");
         }
